@@ -59,6 +59,10 @@ def interesting_err(e):
         return False
     if e in ("!", "std::convert::Infallible", "()"):
         return False
+    # results that cannot carry an evaluation / loader failure: `Path::strip_prefix` (picks a display name),
+    # `binary_search` (Err is the insertion index)
+    if e in ("std::path::StripPrefixError", "usize"):
+        return False
     return True
 
 
